@@ -309,3 +309,68 @@ def build(chk: Check) -> None:
 
     # engine self-test
     chk.mustfail("selftest.Kallen.not_antisymmetric", t.hyps(), Tr("st").val(PS.Kallen(x, y, z).evaluate()).eq(-Tr("st2").val(PS.Kallen(y, x, z).evaluate())), function=F + "Kallen.evaluate")
+
+    spellings(chk)
+
+
+def spellings(chk: Check) -> None:
+    """Bounded, real classes: the same mathematical call spelled differently gives the same unfolded expression --
+    (a) NUMBERS FIRST: exact numbers (zeros in every argument slot, coinciding values) passed to the constructor, then doit(), equals
+        the symbolic doit() with the numbers substituted afterwards (evaluate() may branch on is_zero / is_number of its arguments);
+    (b) KEYWORDS: Kibble / Kallen / is_within_phasespace arguments given by keyword in another order than the declaration order
+        (evaluate() unpacks self.args positionally)."""
+    x, y, z = sp.symbols("x y z", real=True)
+    R = sp.Rational
+    vals = (sp.Integer(0), R(1, 4), sp.Integer(2), None)
+    sym = PS.Kallen(x, y, z).doit()
+
+    def kallen_numbers(_m=None):
+        for a, b, c in itertools.product(vals, repeat=3):
+            args = [v if v is not None else s for v, s in zip((a, b, c), (x, y, z))]
+            got = PS.Kallen(*args).doit()
+            want = sym.subs(dict(zip((x, y, z), args)), simultaneous=True)
+            if sp.expand(got - want) != 0:
+                return {"reproduced": True, "input": f"Kallen({', '.join(map(str, args))}).doit()", "observed": str(got), "expected": str(sp.expand(want))}
+        return {"reproduced": False}
+
+    r = kallen_numbers()
+    chk.struct("spellings.Kallen.numbers_first==symbols_first", not r["reproduced"], F + "Kallen.evaluate", witness=r, replay=kallen_numbers, bounded=True)
+
+    names = ("sigma1", "sigma2", "sigma3", "m0", "m1", "m2", "m3")
+    S = sp.symbols(" ".join(names), real=True)
+    ksym = PS.Kibble(*S).doit()
+
+    def kibble_numbers(_m=None):
+        for zero in itertools.chain.from_iterable(itertools.combinations(range(3, 7), k) for k in range(1, 4)):
+            args = [sp.Integer(0) if i in zero else s for i, s in enumerate(S)]
+            got = PS.Kibble(*args).doit()
+            want = ksym.subs({S[i]: 0 for i in zero})
+            if sp.expand(got - want) != 0:
+                return {"reproduced": True, "input": f"Kibble with exact zero for {[names[i] for i in zero]}", "observed": str(sp.expand(got))[:200], "expected": str(sp.expand(want))[:200]}
+        return {"reproduced": False}
+
+    r = kibble_numbers()
+    chk.struct("spellings.Kibble.numbers_first==symbols_first", not r["reproduced"], F + "Kibble.evaluate", witness=r, replay=kibble_numbers, bounded=True)
+
+    def keywords(_m=None):
+        import random
+
+        rng = random.Random(20)
+        for cls, nms, syms in ((PS.Kibble, names, S), (PS.Kallen, ("x", "y", "z"), (x, y, z))):
+            ref = cls(*syms)
+            for trial in range(6):
+                order = list(range(len(nms)))
+                rng.shuffle(order)
+                for n_pos in (0, 1):
+                    kw = {nms[i]: syms[i] for i in order if i >= n_pos}
+                    try:
+                        got = cls(*syms[:n_pos], **kw)
+                    except TypeError:
+                        return {"reproduced": False, "note": f"{cls.__name__} does not take keywords"} if trial == 0 and n_pos == 0 and False else {"reproduced": True, "input": f"{cls.__name__}(**{list(kw)})", "observed": "TypeError"}
+                    if got.args != ref.args or sp.expand(got.doit() - ref.doit()) != 0:
+                        return {"reproduced": True, "input": f"{cls.__name__}({', '.join(map(str, syms[:n_pos]))}{', ' if n_pos else ''}{', '.join(k + '=' + str(v) for k, v in kw.items())})",
+                                "observed": f"args {got.args}", "expected": f"args {ref.args}"}
+        return {"reproduced": False}
+
+    r = keywords()
+    chk.struct("spellings.keyword_arguments_in_any_order==positional", not r["reproduced"], F + "Kibble.evaluate", witness=r, replay=keywords, bounded=True)
